@@ -81,6 +81,11 @@ type cfgA struct {
 	// effective idle timeout.
 	Defaults bool
 
+	// Method: "application-defined request methods" dimension: the unsafe requests of the histories use this
+	// method instead of POST ("" = POST on a default app) on an app whose fiber.Config.RequestMethods are the
+	// default ones plus appMethodsB.
+	Method string
+
 	// derived by resolve() before the search
 	CkName    string // the CSRF cookie = the cookie in which a safe request leaves the generated token (observed, not assumed)
 	TokCookie string // name of the cookie the configured extractor reads ("" if it does not read a cookie)
@@ -93,6 +98,9 @@ func (c cfgA) name() string {
 	}
 	if c.LongSess {
 		n += "/session-idle=3x"
+	}
+	if c.Method != "" {
+		n += "/unsafe-method=" + c.Method
 	}
 	if c.Layouts {
 		n += "/request-layouts/ctx=" + c.Ctx
@@ -208,7 +216,11 @@ func newSut(c cfgA) *sut {
 	}
 	c.apply(&cc)
 	sgen := func() string { s.nSess++; return fmt.Sprintf("sid-%04d", s.nSess) }
-	app := fiber.New()
+	appCfg := fiber.Config{}
+	if c.Method != "" {
+		appCfg.RequestMethods = append(append([]string(nil), fiber.DefaultMethods...), appMethodsB...)
+	}
+	app := fiber.New(appCfg)
 	switch c.Backend {
 	case "storage":
 		s.st = newVstore()
@@ -288,6 +300,9 @@ type obsA struct {
 
 func (s *sut) do(method, tok, ck, sid string, del bool, failAt int, lay layout) obsA {
 	post := method == "POST"
+	if post && s.cfg.Method != "" {
+		method = s.cfg.Method // the histories' unsafe request with the configuration's method
+	}
 	path := "/"
 	if s.cfg.Extractor == "param" {
 		if post {
@@ -802,6 +817,9 @@ func violatesOnFresh(cfg cfgA, hist []opA, sig string) bool {
 func (rs *runState) caseOf(hist []opA, extra string) map[string]any {
 	c := map[string]any{"harness": "A", "config": rs.cfg.name(), "csrf_config": rs.cfg.literal(), "unsafe_request_shape": rs.cfg.requestShape(), "idle_timeout": rs.cfg.effIdle().String(), "history": histStrings(hist),
 		"request_ctx": rs.cfg.ctxText()}
+	if rs.cfg.Method != "" {
+		c["application_defined_methods"] = "fiber.Config.RequestMethods = fiber.DefaultMethods + " + strings.Join(appMethodsB, ", ") + "; every 'POST (unsafe)' of the history is sent with method " + rs.cfg.Method
+	}
 	if extra != "" {
 		c["then"] = extra
 	}
@@ -1229,6 +1247,16 @@ func runA(r *core.Run, col *collector, samples *[]any, only string) map[string]a
 			}
 		}
 	}
+	// application-defined request methods (fiber.Config.RequestMethods = default + appMethodsB): the unsafe
+	// requests of the histories use one of the application's own verbs (or a standard unsafe method other than
+	// POST); every token rule must hold for them as it does for POST
+	for i, m := range productMethodsB() {
+		be := []string{"storage", "builtin", "session-direct", "storage"}[i%4]
+		ext := []string{"header", "cookie", "header", "form"}[i%4]
+		for _, su := range []bool{false, true} {
+			cfgs = append(cfgs, cfgA{Extractor: ext, Backend: be, SingleUse: su, Faults: 0, Depth: d(3, 4), Ticks: all, Method: m})
+		}
+	}
 	nCanonical := len(cfgs)
 	// redundant / conflicting fields (harness_a_cfg.go)
 	cfgs = append(cfgs, rcfConfigs(d(3, 4), d(3, 4), all)...)
@@ -1316,7 +1344,7 @@ func runA(r *core.Run, col *collector, samples *[]any, only string) map[string]a
 			"depth_storage_nofault": d(5, 7), "depth_storage_nofault_form_query_param": d(4, 7), "depth_storage_fault_header": d(4, 5), "depth_storage_fault_others": d(3, 5),
 			"depth_session": d(4, 6), "depth_session_form": d(3, 6), "depth_session_fault": d(3, 4), "depth_builtin": d(4, 5),
 			"depth_session_outliving_token_header": d(4, 5), "depth_session_outliving_token_cookie": d(3, 4), "session_idle_timeout_outliving": sessIdleLong.String(),
-			"max_injected_failures_per_history": 1,
+			"max_injected_failures_per_history": 1, "depth_application_defined_methods": d(3, 4), "application_defined_methods": appMethodsB, "unsafe_methods_on_apps_with_own_methods": productMethodsB(),
 			"canonical_configs":                 nCanonical, "redundant_conflicting_field_configs": len(cfgs) - nCanonical, "depth_redundant_conflicting": d(3, 4),
 			"leftover_keylookups_next_to_explicit_extractor": leftoverLookups, "explicit_extractors": []string{"header", "form", "query", "param", "cookie (the CSRF cookie)", "cookie2 (another cookie)"},
 			"cookie_names": []string{"unset", "csrf_ (explicit default)", "xsrf"}, "other_ignored_fields": []string{"Storage next to Session (decoy answering every Get)", "CookieSessionOnly next to IdleTimeout"},
